@@ -250,7 +250,11 @@ func (g *Gen) verifyFunc(fc *FuncContract) (*VC, error) {
 			if err != nil {
 				return vc, fmt.Errorf("%s: ensures %s: %v", fc.Key, e.Name, err)
 			}
-			vc.addObl(&Obligation{Name: e.Name + suffix, Kind: "ensures", PC: rp.pc, Goal: t, Src: e.Src})
+			var pts []string
+			for _, prm := range fn.Params {
+				pts = append(pts, fr.v1(prm))
+			}
+			vc.addObl(&Obligation{Name: e.Name + suffix, Kind: "ensures", PC: rp.pc, Goal: t, Src: e.Src, fc: fc, clause: e.E, paramTerms: pts})
 		}
 		if fc.HasMod && !fc.ModAll {
 			if err := vc.frameObligations(fr, fc, penv, rp.pc, rp.st, suffix); err != nil {
